@@ -413,7 +413,7 @@ class _Run:
         sa = self.sa
         eng = self.b.eng
         kind = co["user"]
-        self.trace.append(f"{kind}:{co.get('iso') or '-'}:{''.join(a[0] for a in co['acts'])}:{co['end']}")
+        self.trace.append(f"{kind}:{co.get('iso') or '-'}{'/' + co['opts'] if co.get('opts', 'single') != 'single' else ''}:{''.join(a[0] for a in co['acts'])}:{co['end']}")
         iso = co.get("iso")
         if kind == "raw" or (iso == "AUTOCOMMIT" and not self.b.legacy and self.b.name == "live"):
             iso = None
@@ -429,8 +429,15 @@ class _Run:
             # level OTHER than the dialect's own default stays on the DBAPI connection (not psycopg2: one knob)
             self.excluded.append("per-connection isolation level under an AUTOCOMMIT engine default (known finding: level not restored on return)")
             iso = None
+        opts = co.get("opts", "single") if kind == "conn" else "single"
         if kind == "conn":
-            conn = eng.connect()
+            # connection-level options may reach one checkout in several separate applications (engine-level option engine, then
+            # per-connection calls); a logging token carries no DBAPI state, but every application registers its own reset work
+            conn = eng.execution_options(logging_token="e%d" % n).connect() if opts == "token_engine" else eng.connect()
+            if opts == "token_first":
+                conn = conn.execution_options(logging_token="t%d" % n)
+            if opts != "single":
+                self.cls.add("opts:" + opts)
             raw = conn.connection.dbapi_connection
             fairy = None
         else:
@@ -448,7 +455,14 @@ class _Run:
             iso = None  # inherited open DBAPI transaction (reset None) + driver autocommit: nothing is promised, keep the model simple
         self.last_iso[key] = iso
         if iso is not None:
-            conn = conn.execution_options(isolation_level=iso)
+            if opts == "one_call":
+                conn = conn.execution_options(logging_token="t%d" % n, isolation_level=iso)
+            else:
+                conn = conn.execution_options(isolation_level=iso)
+            if opts == "iso_twice":
+                conn = conn.execution_options(isolation_level=iso)
+            if opts == "token_after":
+                conn = conn.execution_options(logging_token="t%d" % n)
             iso_changed = True
             autocommit = iso == "AUTOCOMMIT"
             self.cls.add("iso:" + iso)
@@ -767,9 +781,10 @@ def _checkouts(live):
     isos = ([None, None, "AUTOCOMMIT", "READ UNCOMMITTED", "SERIALIZABLE", "SERIALIZABLE"] if live
             else [None, None, "AUTOCOMMIT", "SERIALIZABLE", "READ COMMITTED", "REPEATABLE READ", "READ UNCOMMITTED"])
     one = st.builds(
-        lambda user, iso, acts, end: {"user": user, "iso": iso, "acts": acts, "end": end},
+        lambda user, iso, opts, acts, end: {"user": user, "iso": iso, "opts": opts, "acts": acts, "end": end},
         st.sampled_from(["conn", "conn", "raw"]),
         st.sampled_from(isos),
+        st.sampled_from(["single", "single", "single", "token_first", "token_first", "token_engine", "token_engine", "one_call", "token_after", "iso_twice"]),
         st.lists(st.sampled_from(["w", "w", "w", "w", "begin", "begin", "sp", "sp", "sel", "sel", "commit", "commit", "rollback", "rollback", "cf"]), min_size=0, max_size=6),
         st.sampled_from(["close", "close", "gc", "gc", "exc", "invalidate", "detach", "ac_err", "ac_err", "ac_reconn", "ac_reconn"]),
     )
